@@ -37,8 +37,10 @@ func isPrimitiveTypeList(types []*Type) bool {
 			continue
 		}
 
-		if !IsPrimitiveType(typ.Type[0]) {
-			return false
+		for _, name := range typ.Type {
+			if !IsPrimitiveType(name) {
+				return false
+			}
 		}
 	}
 
